@@ -113,6 +113,7 @@ def timer_scenario(rng, tier):
                 ep.h._modulate_tx_seg_size(db, dt)
             except Exception as err:
                 esc = type(err).__name__
+            ep._modulated = False     # recorded explicitly just below
             new = ep.h._send_segment_size
             ep.record({'e': 'modulate', 'raw': int(new)}, ep._collect(esc=esc))
             ep.h._config.modulate_target_ack_time = None
